@@ -83,6 +83,11 @@ class ModuleRoles(object):
                 return set()
             if isinstance(sl, ast.Constant) and isinstance(e.value, ast.Call) and unparse(e.value.func) in ('np.nonzero', 'np.where'):
                 return self.kind(fname, e.value)
+            if isinstance(sl, ast.Constant) and isinstance(e.value, ast.Name) and isinstance(sl.value, int):
+                # t = f(...); t[k]
+                r = getattr(self, '_tuples', {}).get(fname, {}).get(e.value.id)
+                if r and 0 <= sl.value < len(r):
+                    return set(r[sl.value])
             if isinstance(sl, ast.Constant) and isinstance(e.value, ast.Call):
                 # f(...)[k]
                 r = self._call_ret(fname, e.value)
@@ -188,6 +193,25 @@ class ModuleRoles(object):
                         k = self.kind(fname, n.value)
                         if k:
                             self._add(fname, t.id, k)
+                        if isinstance(n.value, ast.Name):
+                            # `t = v`: two names of one object - what t is used as, v is used as
+                            kb = set(self.env[fname].get(t.id, ()))
+                            if kb:
+                                self._add(fname, n.value.id, kb)
+                            if n.value.id in vl and t.id not in vl:
+                                vl.add(t.id)
+                                self._changed = True
+                            if t.id in vl and n.value.id not in vl:
+                                vl.add(n.value.id)
+                                self._changed = True
+                        if isinstance(n.value, ast.Call):
+                            r = self._call_ret(fname, n.value)
+                            if r and len(r) > 1:
+                                self._tuples = getattr(self, '_tuples', {})
+                                cur = self._tuples.setdefault(fname, {})
+                                if cur.get(t.id) != r:
+                                    cur[t.id] = r
+                                    self._changed = True
                         if isinstance(n.value, ast.Subscript) and 'M' in self.kind(fname, n.value.value) and k & {'Wv', 'Pv'}:
                             self.direct[fname].setdefault(t.id, []).append(n)
                     elif isinstance(t, ast.Tuple) and isinstance(n.value, ast.Call):
